@@ -234,6 +234,28 @@ def check_spinlocks(ctx, unit):
     ctx.inst("A.ticket.release", "frg::ticket_spinlock::unlock", not bad, ul.loc,
              "; ".join(bad) if bad else "release store of serving+1", ul)
 
+    # the two counters run freely modulo 2^32: they may be compared for (in)equality only, in every member
+    ctx.rule("A.ticket.wrap-safe", "ticket lock: the free-running ticket counters are never compared with an ordering "
+             "relation (<, <=, >, >=) in any member: such a comparison gives the wrong answer once the dispenser has wrapped", 1)
+    tfns = [f for f in unit.functions if f.owner_cls == "frg::ticket_spinlock" and f.blocks]
+    recs = unit.record("frg::ticket_spinlock")
+    ctrs = {fl["n"] for r in recs for fl in r["fields"]}
+    n_cmp, bad = 0, []
+    for f in tfns:
+        inits_f = local_inits(f)
+        acc_f = accesses(f)
+        for n in f.all_nodes():
+            if n.kind == "BinaryOperator" and n.op in ("<", "<=", ">", ">=", "==", "!="):
+                sides = [resolve_local(f, x, inits_f) for x in n.children]
+                touches = [a for a in acc_f if a.obj and a.obj[-1] in ctrs and any(a.node.id == s_.id for s_ in sides)]
+                if not touches:
+                    continue
+                n_cmp += 1
+                if n.op not in ("==", "!="):
+                    bad.append("%s compares ticket counters with `%s` at %s" % (f.name, n.op, n.loc))
+    ctx.inst("A.ticket.wrap-safe", "frg::ticket_spinlock", not bad and n_cmp > 0, tfns[0].loc if tfns else "",
+             "; ".join(bad) if bad else "%d comparisons on the counters, all == / !=" % n_cmp)
+
     # simple
     lk, ul = one("frg::simple_spinlock::lock"), one("frg::simple_spinlock::unlock")
     acc = accesses(lk)
